@@ -17,6 +17,11 @@ DESC = {
  "panic:arithmetic-overflow": "arithmetic overflow panic on the listed inputs",
  "panic:other": "panic on the listed inputs",
  "error-where-answer-required": "error on the listed inputs where the property demands an answer",
+ "error-on-one-configuration-only": "the statement answers under one configuration (layout / batching / thread count) but errors under another on the listed inputs (e.g. 'Arrow error: column types must match schema types' on multi-batch or Parquet inputs)",
+ "distributed-error-where-single-node-answers": "the forced-distributed run fails (not a refusal) where the single node answers, on the listed inputs (e.g. gather path: 'Table not found' / 'Column not found' when re-binding over the gathered tables; 'no shard returned a schema')",
+ "rewritten-plan-fails-to-execute": "the plan produced by the listed rule list fails to lower/execute although the unoptimized plan executes, on the listed inputs",
+ "optimizer-error": "an optimizer rule returns an internal error on a valid statement, on the listed inputs",
+ "schema-changed": "the rewritten plan's output column names/types differ from the bound plan's, on the listed inputs",
  "hang": "statement did not finish within the deadline on the listed inputs",
 }
 DEVS = ["StrictBool", "InSubSkipsNull", "SetOpJoin", "DistinctKeepsNulls", "NullKeyGroupDropped"]
